@@ -40,6 +40,7 @@ package filter
 //@   ensures [extends] result == nil && old(f.tubes[tubeIndex % len(f.tubes)].Count) > 0 && q - old(f.tubes[tubeIndex % len(f.tubes)].QHi) <= f.maxKmerDist ==> f.tubes[tubeIndex % len(f.tubes)].Count == old(f.tubes[tubeIndex % len(f.tubes)].Count) + 1 && f.tubes[tubeIndex % len(f.tubes)].QLo == old(f.tubes[tubeIndex % len(f.tubes)].QLo) && f.tubes[tubeIndex % len(f.tubes)].QHi == q
 //@   ensures [restarts] result == nil && (old(f.tubes[tubeIndex % len(f.tubes)].Count) == 0 || q - old(f.tubes[tubeIndex % len(f.tubes)].QHi) > f.maxKmerDist) ==> f.tubes[tubeIndex % len(f.tubes)].Count == 1 && f.tubes[tubeIndex % len(f.tubes)].QLo == q && f.tubes[tubeIndex % len(f.tubes)].QHi == q
 //@   ensures [reports]  result == nil && old(f.tubes[tubeIndex % len(f.tubes)].Count) > 0 && q - old(f.tubes[tubeIndex % len(f.tubes)].QHi) > f.maxKmerDist && old(f.tubes[tubeIndex % len(f.tubes)].Count) >= f.minKmersPerHit ==> emittedHits(f) == old(emittedHits(f)) + 1
+//@   ensures [hit]      result == nil ==> f.tubes[tubeIndex % len(f.tubes)].QHi == q
 //@   ensures [silent-empty] result == nil && old(f.tubes[tubeIndex % len(f.tubes)].Count) == 0 ==> emittedHits(f) == old(emittedHits(f))
 //@   ensures [silent-near]  result == nil && q - old(f.tubes[tubeIndex % len(f.tubes)].QHi) <= f.maxKmerDist ==> emittedHits(f) == old(emittedHits(f))
 //@   ensures [silent-few]   result == nil && old(f.tubes[tubeIndex % len(f.tubes)].Count) < f.minKmersPerHit ==> emittedHits(f) == old(emittedHits(f))
@@ -50,4 +51,16 @@ package filter
 //@   property C14
 //@   requires f != nil && len(f.tubes) > 0 && len(f.tubes) == cap(f.tubes) && tubeIndex >= 0
 //@   ensures [reports] result == nil ==> emittedHits(f) == old(emittedHits(f)) + (old(f.tubes[tubeIndex % len(f.tubes)].Count) >= f.minKmersPerHit ? 1 : 0)
+//@   assigns f.tubes[*], emittedHits(f), fresh
+
+// commonKmer: a k-mer shared at target t / query q is counted in the tube of its diagonal and, when the diagonal
+// lies within MaxError of the tube's lower edge, also in the tube below (cyclically); in self comparison the
+// hits on or below the main diagonal are skipped.
+//@ spec skipped(f *Filter, t int, q int) bool = f.selfAlign && ((f.complement && q < len(f.target.Seq) - t) || (!f.complement && q <= t))
+//@ func (*Filter).commonKmer
+//@   property C14
+//@   requires f != nil && f.target != nil && len(f.tubes) > 0 && len(f.tubes) == cap(f.tubes) && f.tubeOffset > 0 && f.maxError >= 0 && 0 <= t && t < len(f.target.Seq) && q >= 0
+//@   ensures [skipped]   skipped(f, t, q) ==> result == nil && emittedHits(f) == old(emittedHits(f)) && forall s int :: 0 <= s && s < len(f.tubes) ==> f.tubes[s] == old(f.tubes[s])
+//@   ensures [own-tube]  !skipped(f, t, q) && result == nil && !((len(f.target.Seq) - t + q) % f.tubeOffset < f.maxError) ==> f.tubes[((len(f.target.Seq) - t + q) / f.tubeOffset) % len(f.tubes)].QHi == q
+//@   ensures [neighbour] !skipped(f, t, q) && result == nil && (len(f.target.Seq) - t + q) % f.tubeOffset < f.maxError ==> f.tubes[((len(f.target.Seq) - t + q) / f.tubeOffset == 0 ? len(f.tubes) - 1 : (len(f.target.Seq) - t + q) / f.tubeOffset - 1) % len(f.tubes)].QHi == q
 //@   assigns f.tubes[*], emittedHits(f), fresh
